@@ -253,6 +253,9 @@ impl CurveHandshake {
     let mut server_ephemeral_pk_bytes = vec![0u8; 32];
     let mut nonce = Nonce::new_byte_array();
     nonce.as_mut_slice()[..8].copy_from_slice(Self::COOKIE_NONCE_PREFIX);
+    if cookie.len() < 16 {
+      return Err(ZmqError::ProtocolViolation("WELCOME cookie too short".into()));
+    }
     let mac = Mac::try_from(&cookie[..16])?;
     let cookie_ciphertext = &cookie[16..];
 
@@ -354,6 +357,9 @@ impl CurveHandshake {
         "Opening INITIATE with initial key."
     );
 
+    if ciphertext_with_mac.len() < 16 {
+      return Err(ZmqError::ProtocolViolation("INITIATE ciphertext too short".into()));
+    }
     let mac = Mac::try_from(&ciphertext_with_mac[..16])?;
     let ciphertext = &ciphertext_with_mac[16..];
     let nonce = self.next_recv_nonce();
@@ -436,7 +442,8 @@ fn decode_metadata(data: &[u8]) -> Result<HashMap<String, Vec<u8>>, ZmqError> {
     if current + key_len > data.len() {
       return Err(ZmqError::ProtocolViolation("Invalid metadata".into()));
     }
-    let key = String::from_utf8(data[current..current + key_len].to_vec()).unwrap();
+    let key = String::from_utf8(data[current..current + key_len].to_vec())
+      .map_err(|_| ZmqError::ProtocolViolation("Invalid metadata".into()))?;
     current += key_len;
 
     if current + 4 > data.len() {
